@@ -24,3 +24,7 @@ mod c24;
 pub mod hx;
 #[cfg(kani)]
 mod c29;
+#[cfg(kani)]
+pub mod models;
+#[cfg(kani)]
+mod c13;
